@@ -7,11 +7,12 @@ pub open spec fn reaped_or_detached(p: Popen, w: BW) -> bool {
     p.child_state is Running && !p.detached ==> w.stages[p.child_state->pid as int].reaped
 }
 pub open spec fn same_stages_mod_reaped(a: BW, b: BW) -> bool {
-    a.stages.len() == b.stages.len() && forall|i: int| 0 <= i < a.stages.len() ==> (#[trigger] b.stages[i]) == (Stage { reaped: b.stages[i].reaped, ..a.stages[i] }) && (a.stages[i].reaped ==> b.stages[i].reaped)
+    a.parked == b.parked && a.inheritable == b.inheritable && a.stages.len() == b.stages.len() && forall|i: int| 0 <= i < a.stages.len() ==> (#[trigger] b.stages[i]) == (Stage { reaped: b.stages[i].reaped, ..a.stages[i] }) && (a.stages[i].reaped ==> b.stages[i].reaped)
 }
 
 pub fn drop_glue_read_out_adapter(a: ReadOutAdapter, Tracked(w): Tracked<&mut World>)
     requires stage_ok(a.0, old(w).s), a.0.stdin.is_none() && a.0.stderr.is_none(),     // what stream_stdout hands out
+        no_parked(old(w).s),
     ensures reaped_or_detached(a.0, final(w).s), same_stages_mod_reaped(old(w).s, final(w).s), //[C12]
 {
     let mut a = a;
@@ -19,7 +20,7 @@ pub fn drop_glue_read_out_adapter(a: ReadOutAdapter, Tracked(w): Tracked<&mut Wo
     drop_glue_popen(a.0, Tracked(w));
 }
 pub fn drop_glue_read_err_adapter(a: ReadErrAdapter, Tracked(w): Tracked<&mut World>)
-    requires stage_ok(a.0, old(w).s), a.0.stdin.is_none() && a.0.stdout.is_none(),
+    requires stage_ok(a.0, old(w).s), a.0.stdin.is_none() && a.0.stdout.is_none(), no_parked(old(w).s),
     ensures reaped_or_detached(a.0, final(w).s), same_stages_mod_reaped(old(w).s, final(w).s), //[C12]
 {
     let mut a = a;
@@ -27,7 +28,7 @@ pub fn drop_glue_read_err_adapter(a: ReadErrAdapter, Tracked(w): Tracked<&mut Wo
     drop_glue_popen(a.0, Tracked(w));
 }
 pub fn drop_glue_write_adapter(a: WriteAdapter, Tracked(w): Tracked<&mut World>)
-    requires stage_ok(a.0, old(w).s), a.0.stdout.is_none() && a.0.stderr.is_none(),
+    requires stage_ok(a.0, old(w).s), a.0.stdout.is_none() && a.0.stderr.is_none(), no_parked(old(w).s),
     ensures reaped_or_detached(a.0, final(w).s), same_stages_mod_reaped(old(w).s, final(w).s), //[C12]
 {
     let mut a = a;
@@ -40,13 +41,13 @@ pub open spec fn all_stage_ok(v: Seq<Popen>, w: BW) -> bool { forall|i: int| 0 <
 pub open spec fn distinct_stages(v: Seq<Popen>) -> bool {
     forall|i: int, j: int| 0 <= i < j < v.len() && (#[trigger] v[i]).child_state is Running && (#[trigger] v[j]).child_state is Running ==> v[i].child_state->pid != v[j].child_state->pid
 }
-pub open spec fn all_wait_safe(v: Seq<Popen>) -> bool {
-    forall|i: int| 0 <= i < v.len() && !(#[trigger] v[i]).detached && v[i].child_state is Running ==> holds_no_pipe(v[i])
+pub open spec fn all_wait_safe(v: Seq<Popen>, s: BW) -> bool {
+    forall|i: int| 0 <= i < v.len() && !(#[trigger] v[i]).detached && v[i].child_state is Running ==> holds_no_pipe(v[i]) && no_parked(s)
 }
 pub open spec fn all_reaped(v: Seq<Popen>, w: BW) -> bool { forall|i: int| 0 <= i < v.len() ==> reaped_or_detached(#[trigger] v[i], w) }
 
 pub fn drop_glue_vec_popen(v: Vec<Popen>, Tracked(w): Tracked<&mut World>)
-    requires all_stage_ok(v@, old(w).s), all_wait_safe(v@), //[C12,C14]
+    requires all_stage_ok(v@, old(w).s), all_wait_safe(v@, old(w).s), //[C12,C14]
     ensures all_reaped(v@, final(w).s), same_stages_mod_reaped(old(w).s, final(w).s), //[C12,C14]
 {
     let mut v = v;
@@ -55,7 +56,7 @@ pub fn drop_glue_vec_popen(v: Vec<Popen>, Tracked(w): Tracked<&mut World>)
     while v.len() > 0
         invariant
             0 <= i, v@.len() + i == v0.len(), forall|j: int| 0 <= j < v@.len() ==> v@[j] == v0[i + j],
-            all_stage_ok(v0, w.s), all_wait_safe(v0), same_stages_mod_reaped(old(w).s, w.s),
+            all_stage_ok(v0, w.s), all_wait_safe(v0, w.s), same_stages_mod_reaped(old(w).s, w.s),
             forall|j: int| 0 <= j < i ==> reaped_or_detached(#[trigger] v0[j], w.s),
         decreases v@.len()
     {
@@ -66,7 +67,7 @@ pub fn drop_glue_vec_popen(v: Vec<Popen>, Tracked(w): Tracked<&mut World>)
     }
 }
 pub fn drop_glue_read_pipeline_adapter(a: ReadPipelineAdapter, Tracked(w): Tracked<&mut World>)
-    requires a.0@.len() >= 1, all_stage_ok(a.0@, old(w).s),
+    requires a.0@.len() >= 1, all_stage_ok(a.0@, old(w).s), no_parked(old(w).s),
         // what Pipeline::stream_stdout hands out: only the last stage still holds a pipe end (its stdout)
         forall|i: int| 0 <= i < a.0@.len() ==> (#[trigger] a.0@[i]).stdin.is_none() && a.0@[i].stderr.is_none() && (i < a.0@.len() - 1 ==> a.0@[i].stdout.is_none()),
     ensures all_reaped(a.0@, final(w).s), same_stages_mod_reaped(old(w).s, final(w).s), //[C12]
@@ -80,7 +81,7 @@ pub fn drop_glue_read_pipeline_adapter(a: ReadPipelineAdapter, Tracked(w): Track
     assert forall|i: int| 0 <= i < v0.len() implies reaped_or_detached(#[trigger] v0[i], w.s) by { assert(reaped_or_detached(v1[i], w.s)); }
 }
 pub fn drop_glue_write_pipeline_adapter(a: WritePipelineAdapter, Tracked(w): Tracked<&mut World>)
-    requires a.0@.len() >= 1, all_stage_ok(a.0@, old(w).s),
+    requires a.0@.len() >= 1, all_stage_ok(a.0@, old(w).s), no_parked(old(w).s),
         forall|i: int| 0 <= i < a.0@.len() ==> (#[trigger] a.0@[i]).stdout.is_none() && a.0@[i].stderr.is_none() && (i > 0 ==> a.0@[i].stdin.is_none()),
     ensures all_reaped(a.0@, final(w).s), same_stages_mod_reaped(old(w).s, final(w).s), //[C12]
 {
